@@ -244,6 +244,9 @@ class GradSampleModule(AbstractGradSampleModule):
         for _module_name, module in trainable_modules(self._module):
             if hasattr(module, "ft_compute_sample_grad"):
                 delattr(module, "ft_compute_sample_grad")
+            for attr in ("activations", "max_batch_len"):
+                if hasattr(module, attr):
+                    delattr(module, attr)
 
     def disable_hooks(self) -> None:
         r"""
